@@ -47,6 +47,10 @@ def gen_case(ctx, rng):
             if isinstance(v, int) and rng.random() < 0.1:
                 v = np.int64(v)
             ops.append(("set", v, rng.randint(0, 1)))
+        elif k in ("predict", "score") and rng.random() < 0.4:
+            # documented pass-through keywords of the solver (scipy.linalg.solve / lstsq); `overwrite_a` only ever concerns a
+            # temporary copy of the sensor rows
+            ops.append((k, rng.choice([{"overwrite_a": True}, {"check_finite": False}, {"overwrite_a": True, "check_finite": False}])))
         else:
             ops.append((k,))
     return {"basis": basis, "n_modes": nm, "ctor": ctor, "opt": opt, "seed": seed, "X": X, "ops": ops}
@@ -114,12 +118,12 @@ def check_case(ctx, case, idx):
             model.get_selected_sensors(); model.get_all_sensors(); _ = model.selected_sensors
         elif op[0] == "predict":
             try:
-                model.predict(X[:, model.get_selected_sensors()])
+                model.predict(X[:, model.get_selected_sensors()], **(op[1] if len(op) > 1 else {}))
             except Exception:
                 pass
         else:
             try:
-                model.score(X)
+                model.score(X, **({"solve_kws": op[1]} if len(op) > 1 else {}))
             except Exception:
                 pass
         rk = np.array(model.get_all_sensors()).tolist()
